@@ -4,6 +4,7 @@ C12 — a tree of the statement grammar that shows none of the defect classes is
 -/
 import OG.C12.Good
 import OG.C12.RoundTrip3
+import OG.C12.SetLemmas
 
 namespace OG.C12
 open OG.Gen.C12
@@ -11,7 +12,7 @@ open OG.Gen.C12
 /-- all node predicates at once. -/
 def goodAll (e : Expr) : Bool :=
   shapeOK e && nodeOK e && pMixed e && pNeg e && pLike e && pIntegral e && pInfNan e &&
-    pCallPlain e && pRegex e && pTagDiv e && pTypes e && pDur e && pSets e
+    pCallPlain e && pRegex e && pTagDiv e && pTypes e && pDur e
 
 mutual
 theorem allNodes_and (p q : Expr → Bool) : (e : Expr) →
@@ -46,6 +47,14 @@ theorem numRT_of (n : Num) (hc : (n.scale = 0 || n.mant % 10 != 0) = true) (hi :
     have := parseNumText_formatNum m s hi hc
     simp [numRT, hi, this]
 
+theorem goodAll_parts (e : Expr) (h : goodAll e = true) :
+    shapeOK e = true ∧ nodeOK e = true ∧ pMixed e = true ∧ pNeg e = true ∧ pLike e = true ∧
+    pIntegral e = true ∧ pInfNan e = true ∧ pCallPlain e = true ∧ pRegex e = true ∧ pTagDiv e = true ∧
+    pTypes e = true ∧ pDur e = true := by
+  simp only [goodAll, Bool.and_eq_true] at h
+  obtain ⟨⟨⟨⟨⟨⟨⟨⟨⟨⟨⟨a, b⟩, c⟩, d⟩, e1⟩, f⟩, g⟩, i⟩, j⟩, k⟩, l⟩, m⟩ := h
+  exact ⟨a, b, c, d, e1, f, g, i, j, k, l, m⟩
+
 mutual
 theorem good_canon_atoms : (e : Expr) → allNodes goodAll e = true → PECanon e = true ∧ AtomsOK e = true
   | .binary op l r, h => by
@@ -53,8 +62,7 @@ theorem good_canon_atoms : (e : Expr) → allNodes goodAll e = true → PECanon 
     obtain ⟨⟨hn, hl⟩, hr⟩ := h
     obtain ⟨hcl, hal⟩ := good_canon_atoms l hl
     obtain ⟨hcr, har⟩ := good_canon_atoms r hr
-    simp only [goodAll, Bool.and_eq_true] at hn
-    obtain ⟨⟨⟨⟨⟨⟨⟨⟨⟨⟨⟨⟨hshape, hnode⟩, hmix⟩, hneg⟩, hlike⟩, _⟩, _⟩, _⟩, hregex⟩, htag⟩, _⟩, _⟩, _⟩ := hn
+    obtain ⟨hshape, hnode, hmix, hneg, hlike, hint, hinf, hplain, hregex, htag, hty, hd⟩ := goodAll_parts _ hn
     simp only [nodeOK, Bool.and_eq_true] at hnode
     obtain ⟨⟨hisop, hnsl⟩, hsetpos⟩ := hnode
     -- grouping
@@ -101,45 +109,45 @@ theorem good_canon_atoms : (e : Expr) → allNodes goodAll e = true → PECanon 
     simp only [allNodes, Bool.and_eq_true] at h
     obtain ⟨hn, he⟩ := h
     obtain ⟨hc, ha⟩ := good_canon_atoms e he
-    simp only [goodAll, Bool.and_eq_true] at hn
-    obtain ⟨⟨⟨⟨⟨⟨⟨⟨⟨⟨⟨⟨_, hnode⟩, _⟩, _⟩, _⟩, _⟩, _⟩, _⟩, hregex⟩, _⟩, _⟩, _⟩, _⟩ := hn
+    obtain ⟨hshape, hnode, hmix, hneg, hlike, hint, hinf, hplain, hregex, htag, hty, hd⟩ := goodAll_parts _ hn
     exact ⟨by simpa [PECanon] using hc, by
       simp only [AtomsOK, ha, Bool.true_and, Bool.and_eq_true]
       exact ⟨by simpa [pRegex] using hregex, by simpa [nodeOK] using hnode⟩⟩
   | .call name args, h => by
     simp only [allNodes, Bool.and_eq_true] at h
     obtain ⟨hn, hargs⟩ := h
-    simp only [goodAll, Bool.and_eq_true] at hn
-    obtain ⟨⟨⟨⟨⟨⟨⟨⟨⟨⟨⟨⟨_, hnode⟩, _⟩, _⟩, _⟩, _⟩, hinf⟩, hplain⟩, hregex⟩, _⟩, _⟩, _⟩, _⟩ := hn
+    obtain ⟨hshape, hnode, hmix, hneg, hlike, hint, hinf, hplain, hregex, htag, hty, hd⟩ := goodAll_parts _ hn
     simp only [nodeOK, Bool.and_eq_true, decide_eq_true_eq] at hnode
     obtain ⟨hc, ha⟩ := good_args args hargs (by simpa [pRegex] using hregex) hnode.2
     exact ⟨by simpa [PECanon] using hc, by
       simp only [AtomsOK, ha, Bool.and_true, Bool.and_eq_true, decide_eq_true_eq]
       exact ⟨⟨by simpa [pCallPlain] using hplain, by simpa [pInfNan] using hinf⟩, hnode.1⟩⟩
   | .varRef name ty, h => by
-    simp only [allNodes, goodAll, Bool.and_eq_true] at h
-    obtain ⟨⟨⟨⟨⟨⟨⟨⟨⟨⟨⟨⟨_, _⟩, _⟩, _⟩, _⟩, _⟩, hinf⟩, _⟩, _⟩, _⟩, hty⟩, _⟩, _⟩ := h
+    simp only [allNodes] at h
+    obtain ⟨hshape, hnode, hmix, hneg, hlike, hint, hinf, hplain, hregex, htag, hty, hd⟩ := goodAll_parts _ h
     exact ⟨by simp [PECanon], by
       simp only [AtomsOK, Bool.and_eq_true]
       exact ⟨by simpa [pInfNan] using hinf, by simpa [pTypes] using hty⟩⟩
   | .num n, h => by
-    simp only [allNodes, goodAll, Bool.and_eq_true] at h
-    obtain ⟨⟨⟨⟨⟨⟨⟨⟨⟨⟨⟨⟨_, hnode⟩, _⟩, _⟩, _⟩, hint⟩, _⟩, _⟩, _⟩, _⟩, _⟩, _⟩, _⟩ := h
+    simp only [allNodes] at h
+    obtain ⟨hshape, hnode, hmix, hneg, hlike, hint, hinf, hplain, hregex, htag, hty, hd⟩ := goodAll_parts _ h
     exact ⟨by simp [PECanon], by
       simp only [AtomsOK]
       exact numRT_of n (by simpa [nodeOK] using hnode) (by simpa [pIntegral] using hint)⟩
   | .int v, h => by
-    simp only [allNodes, goodAll, Bool.and_eq_true] at h
-    obtain ⟨⟨⟨⟨⟨⟨⟨⟨⟨⟨⟨⟨_, hnode⟩, _⟩, _⟩, _⟩, _⟩, _⟩, _⟩, _⟩, _⟩, _⟩, _⟩, _⟩ := h
+    simp only [allNodes] at h
+    obtain ⟨hshape, hnode, hmix, hneg, hlike, hint, hinf, hplain, hregex, htag, hty, hd⟩ := goodAll_parts _ h
     exact ⟨by simp [PECanon], by simpa [AtomsOK, nodeOK] using hnode⟩
   | .dur d, h => by
-    simp only [allNodes, goodAll, Bool.and_eq_true] at h
-    obtain ⟨⟨⟨⟨⟨⟨⟨⟨⟨⟨⟨⟨_, _⟩, _⟩, _⟩, _⟩, _⟩, _⟩, _⟩, _⟩, _⟩, _⟩, hd⟩, _⟩ := h
+    simp only [allNodes] at h
+    obtain ⟨hshape, hnode, hmix, hneg, hlike, hint, hinf, hplain, hregex, htag, hty, hd⟩ := goodAll_parts _ h
     exact ⟨by simp [PECanon], by simpa [AtomsOK, pDur] using hd⟩
   | .set vals, h => by
-    simp only [allNodes, goodAll, Bool.and_eq_true] at h
-    obtain ⟨⟨⟨⟨⟨⟨⟨⟨⟨⟨⟨⟨_, _⟩, _⟩, _⟩, _⟩, _⟩, _⟩, _⟩, _⟩, _⟩, _⟩, _⟩, hs⟩ := h
-    exact ⟨by simp [PECanon], by simpa [AtomsOK, pSets] using hs⟩
+    simp only [allNodes] at h
+    obtain ⟨hshape, hnode, hmix, hneg, hlike, hint, hinf, hplain, hregex, htag, hty, hd⟩ := goodAll_parts _ h
+    exact ⟨by simp [PECanon], by
+      simp only [AtomsOK]
+      exact setRT_of_canon vals (by simpa [nodeOK] using hnode)⟩
   | .uns _, h => by simp [allNodes, goodAll, nodeOK] at h
   | .numInf, h => by simp [allNodes, goodAll, nodeOK] at h
   | .numNegInf, h => by simp [allNodes, goodAll, nodeOK] at h
